@@ -40,6 +40,9 @@ type vconn struct {
 	// channel is closed (by Close or by the harness = the peer going away)
 	hold     chan struct{}
 	holdDone bool
+	// wblock, if non-nil: the peer does not read, every Write blocks until the
+	// connection is closed (then fails)
+	wblock chan struct{}
 	// script, if set, is called when the input is exhausted (a lock-step
 	// client): it may append to in and return true to continue.
 	script func(c *vconn) bool
@@ -94,6 +97,10 @@ func (c *vconn) Write(b []byte) (int, error) {
 	if c.closed {
 		return 0, net.ErrClosed
 	}
+	if c.wblock != nil {
+		<-c.wblock
+		return 0, net.ErrClosed
+	}
 	c.out = append(c.out, b...)
 	return len(b), nil
 }
@@ -102,6 +109,9 @@ func (c *vconn) Close() error {
 	c.closes++
 	c.closed = true
 	c.release()
+	if c.wblock != nil && c.closes == 1 {
+		close(c.wblock)
+	}
 	return nil
 }
 
